@@ -318,6 +318,7 @@ def run(rep, tier_, rng):
     regimes = {}
     for c in calls.values():
         regimes[c["fn"] + ":" + c["regime"]] = regimes.get(c["fn"] + ":" + c["regime"], 0) + 1
+    insts, not_attempted = calcb.fit_budget(insts, max(30, (115 if q else 1100) - tgen))
     run_and_report(rep, insts, calls, tag="C36_%s" % tier_, params={"sentence_timeout": 60, "single_timeout": 80},
                    budget=max(30, (115 if q else 1100) - tgen), jobs=10,
                    rule="each evaluation = one call of chebyfit / fourier / fourierval of the current /repo code: chebyfit on random "
@@ -326,7 +327,7 @@ def run(rep, tier_, rng):
                         "rational coefficients, period 1/2..4); fourierval on random dyadic series at dyadic points; p in {30,53,100(,200)}; "
                         "distinct = distinct lemma statements; non-trivial = not an exact hit against a rational",
                    assumptions=ASSUMPTIONS,
-                   extra_cov={"regimes": regimes, "generation_wall_s": round(tgen, 1), "tolerance": "2^(10-p) (see assumptions for the scale)", **stats})
+                   extra_cov={"lemmas_not_attempted_for_time": not_attempted, "regimes": regimes, "generation_wall_s": round(tgen, 1), "tolerance": "2^(10-p) (see assumptions for the scale)", **stats})
 
 
 def replay(rep, path):
